@@ -15,6 +15,8 @@ QUERIES = [
   dict(name='threshold_endpoints', harness='c12', entry='h_threshold_endpoints', unwind=3, unwindset=US, timeout=600, shape='every non-NaN double'),
   dict(name='threshold_monotone_abs', harness='c12_abs', entry='h_threshold_monotone', unwind=3, unwindset=US, timeout=900, abstracted=True,
        solvers=['cadical', 'minisat'], shape='every pair of non-NaN doubles r1<=r2; fl(UINT32_MAX*r) abstracted by the IEEE monotonicity lemma'),
+  dict(name='threshold_formula_abs', harness='c12_abs', entry='h_threshold_formula', unwind=3, unwindset=US, timeout=900, abstracted=True, solvers=['cadical', 'minisat'],
+       shape='every ratio in (0,1): result equals the documented split formula on the same product (multiplication abstracted consistently on both sides)'),
   dict(name='ratio_decision', harness='c12_uf', entry='h_ratio_decision', unwind=18, unwindset=US, timeout=900, shape='every ratio, trace id, parent context; CalculateThreshold as uninterpreted function + proven end points'),
   dict(name='parent_based', harness='c12', entry='h_parent_based', unwind=18, unwindset=US, timeout=600, shape='every parent context/flags, delegate decision'),
   dict(name='always_on_off', harness='c12', entry='h_always', unwind=18, unwindset=US, timeout=600, shape='every parent context'),
